@@ -305,6 +305,59 @@ def check_refs(chk, repo):
 IMPLICIT_TABLES = ('RINGgroups', 'reactantquery', 'labelmapping')
 
 
+NULLABLE_CALLS = {
+    # RDKit: None when the two atoms are not bonded
+    'GetBondBetweenAtoms',
+}
+
+
+def check_nullable_deref(chk, repo):
+    """Contradiction rule: a reader method that tests the result of a
+    may-be-None RDKit call for truth (so it believes it can be None) does
+    not use an attribute of it at a position that is evaluated before
+    that test -- the AttributeError would leave Read."""
+    n = 0
+    for rel in (MQR, RQR):
+        for f in ast.walk(repo.mod(rel).tree):
+            if not isinstance(f, ast.FunctionDef):
+                continue
+            nullable = {}
+            for a in ast.walk(f):
+                if isinstance(a, ast.Assign) and len(a.targets) == 1 \
+                        and isinstance(a.targets[0], ast.Name) \
+                        and isinstance(a.value, ast.Call) and isinstance(
+                            a.value.func, ast.Attribute) \
+                        and a.value.func.attr in NULLABLE_CALLS:
+                    nullable.setdefault(a.targets[0].id, a)
+            for v, a in sorted(nullable.items()):
+                tests = []
+                for t in ast.walk(f):
+                    if isinstance(t, (ast.If, ast.IfExp, ast.While,
+                                      ast.Assert)):
+                        for x in ast.walk(t.test):
+                            if isinstance(x, ast.Name) and x.id == v \
+                                    and not isinstance(getattr(
+                                        x, '_parent', None), ast.Attribute):
+                                tests.append((x.lineno, x.col_offset))
+                if not tests:
+                    continue
+                first = min(tests)
+                n += 1
+                early = [x for x in ast.walk(f)
+                         if isinstance(x, ast.Attribute) and isinstance(
+                             x.value, ast.Name) and x.value.id == v
+                         and (a.end_lineno, 0) < (x.lineno, x.col_offset)
+                         < first]
+                chk.ob('R09.4', not early, rel, early[0] if early else a,
+                       key='nullable:%s:%s' % (f.name, v),
+                       qualname=f.name,
+                       what='%s: %s (may be None, and is tested for it) is '
+                            'not dereferenced before that test' % (f.name, v),
+                       found=', '.join('%s at line %d' % (src(x), x.lineno)
+                                       for x in early))
+    chk.need('R09.4', n, 3, 'truth-tested results of may-be-None calls')
+
+
 def check_implicit_raisers(chk, repo):
     """list.index and subscripts of name tables fed by the input text must
     sit under a handler that catches what they raise, or under a membership
@@ -603,6 +656,7 @@ def run(chk, repo, tier):
     check_scanner_loops(chk, repo)
     check_refs(chk, repo)
     check_implicit_raisers(chk, repo)
+    check_nullable_deref(chk, repo)
     check_shapes(chk, repo, enhanced, 'R09.7')
     # R16.1-like precondition of the shape interpretation: tokens compare
     # with strings through __eq__
